@@ -6,6 +6,7 @@
 #include <algorithm>
 #include <cstring>
 #include <functional>
+#include <deque>
 #include <map>
 #include <random>
 using namespace yakushima;
@@ -33,7 +34,22 @@ int main(int argc, char** argv) {
         keys.push_back(k);
     }
     if (longkeys) for (std::size_t len : {255u, 256u, 257u, 264u, 1024u, 30720u}) { std::string k(len, (char)7); k[len - 1] = (char)(rng() % 3); keys.push_back(k); if (len == 264) { std::string k2 = k; k2.push_back(0); keys.push_back(k2); } }
-    auto pick = [&]() { return keys[rng() % keys.size()]; };
+    // scripted preamble (longsplit=1): a FULL border node (15 two-byte fillers, in layer 0 / 1 / 2) receives a long key whose remaining
+    // length in that layer is 256*k + r, ranked above all fillers (the split must put it into the upper node); then get / remove / re-put
+    struct SOp { int kind; std::string k; };   // 0 put, 1 get, 2 remove
+    std::deque<SOp> script; bool forced = false; std::string forced_key;
+    if (argi("longsplit", 0)) {
+        for (std::pair<std::size_t, std::size_t> pl : {std::pair<std::size_t, std::size_t>{0, 256}, {0, 257}, {0, 264}, {0, 512}, {0, 30720}, {8, 256}, {16, 1024}, {8, 261}, {0, 265}, {0, 255}}) {
+            std::string pre(pl.first, 'Q'); std::vector<std::string> fl; for (int i = 0; i < 15; i++) fl.push_back(pre + "k" + std::string(1, (char)(0x10 + i)));
+            std::string lk = pre + std::string(pl.second, 'k');
+            for (auto& f : fl) script.push_back({0, f});
+            script.push_back({0, lk}); script.push_back({1, lk}); script.push_back({1, fl[8]}); script.push_back({1, fl[14]});
+            script.push_back({2, lk}); script.push_back({1, lk}); script.push_back({0, lk}); script.push_back({1, lk});
+            for (auto& f : fl) script.push_back({2, f});
+            script.push_back({1, lk}); script.push_back({2, lk});
+        }
+    }
+    auto pick = [&]() { return forced ? forced_key : keys[rng() % keys.size()]; };
     auto endkey = [&]() { std::string k = pick(); int m = rng() % 6; if (m == 0 && !k.empty()) k.pop_back(); else if (m == 1) k.push_back((char)AL[rng() % alpha]); else if (m == 2) k.push_back(0); else if (m == 3) k = rnd_bytes(rng() % (maxlen + 2)); return k; };
     std::vector<std::size_t> lens = {0, 1, 7, 8, 9, 15, 16, 17, 63, 64, 65, 255, 256, 257, 4095, 4096, 4097, 65535, 65536, 65537};
     if (bigvals) { lens.push_back(1u << 20); lens.push_back((3u << 20) + 5); }
@@ -49,9 +65,16 @@ int main(int argc, char** argv) {
         std::size_t ni = rng() % names.size();
         // coverage heuristic only: mostly address storages that currently exist
         if (rng() % 100 < 80) { std::vector<std::size_t> ex; for (std::size_t q = 0; q < names.size(); q++) if (exists[q]) ex.push_back(q); if (!ex.empty()) ni = ex[rng() % ex.size()]; }
+        long x = rng() % 100, acc = 0;
+        forced = false;
+        if (!script.empty()) {
+            ni = 4;   // "zz", a storage of out-of-line values
+            if (!exists[ni]) { status rc = create_storage(names[ni]); if (rc == status::OK) exists[ni] = true; puts(("{\"n\":" + vh::jbytes(names[ni]) + ",\"inl\":false,\"op\":\"create\",\"st\":\"" + vh::stname(rc) + "\"}").c_str()); }
+            SOp so = script.front(); script.pop_front(); forced = true; forced_key = so.k;
+            x = so.kind == 0 ? pddl : so.kind == 2 ? pddl + pput : pddl + pput + prem;
+        }
         const std::string& nm = names[ni]; bool inl = inline_st[ni];
         std::string pre = "{\"n\":" + vh::jbytes(nm) + ",\"inl\":" + vh::jb(inl);
-        long x = rng() % 100, acc = 0;
         if (x < (acc += pddl)) {
             int w = rng() % 4;
             if (w == 0 || w == 1) { if (rng() % 3) { std::vector<std::size_t> ne; for (std::size_t q = 0; q < names.size(); q++) if (!exists[q]) ne.push_back(q); if (!ne.empty()) ni = ne[rng() % ne.size()]; }
